@@ -74,3 +74,13 @@ package dns
 //@ func (*EDNS0_SUBNET).unpack [C01]
 //@   ensures len(b) < 4 ==> ret0 != nil
 //@   ensures ret0 == nil ==> e.Family == b[0]*256 + b[1] && e.SourceNetmask == b[2] && e.SourceScope == b[3] && e.Family <= 2
+
+// ---- 12-bit RCODE: low nibble in the header, upper eight bits in the OPT TTL's first octet (RFC 6891 6.1.3)
+//@ func (*OPT).SetExtendedRcode [C01]
+//@   requires rr != nil
+//@   ensures hi: rr.Hdr.Ttl == old(rr.Hdr.Ttl) % 16777216 + ((v / 16) % 256) * 16777216
+//@   modifies H.RR_Header.Ttl.v
+//@ func (*OPT).ExtendedRcode [C01]
+//@   requires rr != nil
+//@   ensures hi: ret0 == (rr.Hdr.Ttl / 16777216) * 16
+//@   pure
